@@ -1,6 +1,7 @@
 import OnetVerif.Model.C18
 import OnetVerif.Proofs.C18Lemmas
 import OnetVerif.Proofs.C18Text
+import OnetVerif.Proofs.C18Slices
 import OnetVerif.Shapes
 /-! Property C18 — configuration files round-trip and always yield the same identities.
 
@@ -447,6 +448,45 @@ theorem c18_private_save_load_text (suites : List Suite) (reg : List (Str × Sui
     unfold getServerIdentity
     simp only [privCfgOf, Toml.normPriv, hsv, loadCothority, hidem, Option.map_some, Option.getD_some]
     rw [parseServices_perm hperm hnd]
+
+/-! ### what was read stays what was read: rosters made from parts of a group's list
+
+`Model/C18Slices.lean`: slices over a heap of arrays, `onet.NewRoster` (copies its argument into a fresh array) and
+`Roster.Concat` (appends to a roster made by `NewRoster`). -/
+
+/-- **whatever a consumer does with rosters made from (parts of) the lists of existing rosters — any number of
+`NewRoster(list[lo:hi])` and `Concat(…)` calls, on the group's roster or on rosters made before, in any order —
+every slice that existed before shows what it showed before.**  In particular the group returned by the reader
+keeps the identities of the file, and so its roster identifier. -/
+theorem c18_uses_leave_group {α : Type} [DecidableEq α] (pad : α) (st : Sl.St α) (us : List (Sl.Use α)) (s : Sl.Slice)
+    (hs : s.arr < st.heap.length) :
+    Sl.read (Sl.runWith Sl.newRoster pad st us).heap s = Sl.read st.heap s :=
+  Sl.read_below (Sl.run_below pad us st) s hs
+
+/-- … for a group as the reader leaves it -/
+theorem c18_group_list_kept {α : Type} [DecidableEq α] (pad : α) (l : List α) (us : List (Sl.Use α)) :
+    Sl.read (Sl.runWith Sl.newRoster pad (Sl.ofList l) us).heap { arr := 0, off := 0, len := l.length, cap := l.length } = l := by
+  rw [c18_uses_leave_group pad (Sl.ofList l) us _ (by simp [Sl.ofList])]
+  simp [Sl.read, Sl.ofList]
+
+/-- what the driver answers to `uses` is the group itself -/
+theorem c18_after_uses (g : List ServerId) (k : Nat) : Drv.afterUses g k = g :=
+  c18_group_list_kept _ g _
+
+/-- **the copy in `NewRoster` is what this rests on**: with a `NewRoster` that keeps the caller's slice
+(`&Roster{List: ids[:]}`), a roster made from the first two of four servers and extended by one server overwrites
+the third server of the group. -/
+theorem c18_shared_list_witness :
+    Sl.read (Sl.runWith Sl.newRosterShared 0 (Sl.ofList [1, 2, 3, 4]) [.part 0 0 2, .concat 1 [9]]).heap
+        { arr := 0, off := 0, len := 4, cap := 4 } = [1, 2, 9, 4] ∧
+    Sl.read (Sl.runWith Sl.newRoster 0 (Sl.ofList [1, 2, 3, 4]) [.part 0 0 2, .concat 1 [9]]).heap
+        { arr := 0, off := 0, len := 4, cap := 4 } = [1, 2, 3, 4] := by
+  constructor <;> decide
+
+/-- the uses are not empty and do append in place somewhere: the roster `Concat` returns holds the added server -/
+example :
+    let st := Sl.runWith Sl.newRoster 0 (Sl.ofList [1, 2, 3, 4]) [.part 0 0 2, .concat 1 [9, 2, 8]]
+    st.rosters.map (Sl.read st.heap) = [[1, 2, 3, 4], [1, 2], [1, 2, 9, 8]] := by decide
 
 /-! ### the code regions the model stands for
 Regenerated from /repo's source on every run (`harness/cmd/astfacts` → `OnetVerif/Shapes.lean`): the
